@@ -77,8 +77,150 @@ type Fact struct {
 	Holds bool
 }
 
-// factsAt lists the branch outcomes that edge-dominate block b.
-func factsAt(fn *ssa.Function, b *ssa.BasicBlock) []Fact {
+// factsAt lists the branch outcomes that edge-dominate block b, and those that follow from a dominating test of a
+// merged value: after `r := phi(nil, e)` a test r != nil that went the "nil" way tells which ways into the merge were
+// taken, and what held on every one of those ways holds (see mergedFacts).
+func factsAt(fn *ssa.Function, b *ssa.BasicBlock) []Fact { return factsAtD(fn, b, 0) }
+
+func factsAtD(fn *ssa.Function, b *ssa.BasicBlock, depth int) []Fact {
+	out := factsAtBase(fn, b)
+	if depth >= 2 {
+		return out
+	}
+	n := len(out)
+	for i := 0; i < n; i++ {
+		for _, f := range mergedFacts(fn, b, out[i], depth) {
+			dup := false
+			for _, o := range out {
+				if o.Atom == f.Atom && o.Holds == f.Holds {
+					dup = true
+				}
+			}
+			if !dup {
+				out = append(out, f)
+			}
+		}
+	}
+	return out
+}
+
+// mergedFacts: fact is the outcome of a test of a merged value (a phi compared with nil, or a boolean phi) that
+// decides which of the ways into the merge were taken. Returned: the outcomes known on every one of those ways, as
+// far as nothing between the merge and b can have evaluated them again.
+//
+// Soundness. Let P be the block of the phi and e the edge of the test. (A) Without e, b is not reachable from P: after
+// the last entry into P before b the test is made, on the value of that entry, and goes the way of e. So that entry
+// came by one of the ways whose value agrees with the outcome. (B) An outcome F known on each of those ways is kept
+// only when its test is not reachable from P without entering P again: between that last entry and b it is not made
+// again, so it still stands.
+func mergedFacts(fn *ssa.Function, b *ssa.BasicBlock, fact Fact, depth int) []Fact {
+	if fact.If == nil {
+		return nil
+	}
+	var phi *ssa.Phi
+	wantNil, isNilTest := false, false
+	switch t := fact.Atom.(type) {
+	case *ssa.Phi:
+		phi = t
+	case *ssa.BinOp:
+		if t.Op != token.EQL && t.Op != token.NEQ {
+			return nil
+		}
+		x, y := t.X, t.Y
+		if isNilConst(x) {
+			x, y = y, x
+		}
+		p, ok := x.(*ssa.Phi)
+		if !ok || !isNilConst(y) {
+			return nil
+		}
+		phi, isNilTest = p, true
+		wantNil = (t.Op == token.EQL) == fact.Holds
+	default:
+		return nil
+	}
+	P := phi.Block()
+	if len(P.Preds) < 2 || len(P.Preds) != len(phi.Edges) {
+		return nil
+	}
+	blk := fact.If.Block()
+	_, pol := condAtom(fact.If.Cond)
+	succ := blk.Succs[1]
+	if fact.Holds == pol {
+		succ = blk.Succs[0]
+	}
+	if P == b || reach(P, map[edge]bool{{blk, succ}: true}, nil)[b] {
+		return nil
+	}
+	var common []Fact
+	first := true
+	excluded := 0
+	for i, e := range phi.Edges {
+		fs := factsOnEdgeD(fn, P.Preds[i], P, depth+1)
+		feasible := true
+		if isNilTest {
+			switch {
+			case isNilConst(e):
+				feasible = wantNil
+			case knownNonNil(e, fs):
+				feasible = !wantNil
+			}
+		} else if cb, isC := constBool(e); isC {
+			feasible = cb == fact.Holds
+		}
+		if !feasible {
+			excluded++
+			continue
+		}
+		if first {
+			common, first = fs, false
+			continue
+		}
+		var keep []Fact
+		for _, f := range common {
+			for _, g := range fs {
+				if f.Atom == g.Atom && f.Holds == g.Holds {
+					keep = append(keep, f)
+					break
+				}
+			}
+		}
+		common = keep
+	}
+	if excluded == 0 || len(common) == 0 {
+		return nil
+	}
+	into := map[edge]bool{}
+	for _, p := range P.Preds {
+		into[edge{p, P}] = true
+	}
+	after := reach(P, into, nil)
+	var out []Fact
+	for _, f := range common {
+		if f.If != nil && !after[f.If.Block()] {
+			out = append(out, f)
+		}
+	}
+	return out
+}
+
+// knownNonNil: the value cannot be nil — by what it is, or by a test on the way it comes in by.
+func knownNonNil(v ssa.Value, facts []Fact) bool {
+	switch v.(type) {
+	case *ssa.MakeInterface, *ssa.Alloc, *ssa.MakeChan, *ssa.MakeMap, *ssa.MakeSlice, *ssa.MakeClosure, *ssa.FieldAddr, *ssa.IndexAddr, *ssa.Function:
+		return true
+	}
+	for _, f := range facts {
+		if b, ok := f.Atom.(*ssa.BinOp); ok && (b.Op == token.EQL || b.Op == token.NEQ) {
+			if (b.X == v && isNilConst(b.Y) || b.Y == v && isNilConst(b.X)) && (b.Op == token.NEQ) == f.Holds {
+				return true
+			}
+		}
+	}
+	return false
+}
+
+func factsAtBase(fn *ssa.Function, b *ssa.BasicBlock) []Fact {
 	var out []Fact
 	for _, blk := range fn.Blocks {
 		if len(blk.Instrs) == 0 {
@@ -102,7 +244,11 @@ func factsAt(fn *ssa.Function, b *ssa.BasicBlock) []Fact {
 // factsOnEdge lists the branch outcomes known when control passes from block from to its successor to: those that
 // edge-dominate from, plus the outcome of from's own branch when to is reached by exactly one of its arms.
 func factsOnEdge(fn *ssa.Function, from, to *ssa.BasicBlock) []Fact {
-	out := factsAt(fn, from)
+	return factsOnEdgeD(fn, from, to, 0)
+}
+
+func factsOnEdgeD(fn *ssa.Function, from, to *ssa.BasicBlock, depth int) []Fact {
+	out := factsAtD(fn, from, depth)
 	if len(from.Instrs) == 0 {
 		return out
 	}
@@ -523,7 +669,32 @@ func expandPhi(b *ssa.BasicBlock, results []ssa.Value, idx int, pos token.Pos, s
 	}
 	seen[phi] = true
 	var out []retPoint
+	// a way the tests made since the merge rule out is not a way to this return: `r := phi(nil, e); if r != nil {
+	// return r }` returns e only
+	var tests []Fact
+	if b.Parent() != nil && phi.Block() != b {
+		tests = factsAtBase(b.Parent(), b)
+	}
 	for i, e := range phi.Edges {
+		ruledOut := false
+		for _, t := range tests {
+			switch a := t.Atom.(type) {
+			case *ssa.Phi:
+				if cb, isC := constBool(e); a == phi && isC && cb != t.Holds {
+					ruledOut = true
+				}
+			case *ssa.BinOp:
+				if (a.Op == token.EQL || a.Op == token.NEQ) && (a.X == ssa.Value(phi) && isNilConst(a.Y) || a.Y == ssa.Value(phi) && isNilConst(a.X)) {
+					wantNil := (a.Op == token.EQL) == t.Holds
+					if isNilConst(e) && !wantNil || knownNonNil(e, nil) && wantNil {
+						ruledOut = true
+					}
+				}
+			}
+		}
+		if ruledOut && phi.Block().Dominates(b) {
+			continue
+		}
 		rs := append([]ssa.Value(nil), results...)
 		rs[idx] = e
 		// other results that are phis of the same block follow the same edge
@@ -576,7 +747,7 @@ func mustPass(fn *ssa.Function, from *ssa.BasicBlock, fromIdx int, hit func(ssa.
 		if satisfied {
 			continue
 		}
-		for _, s := range it.b.Succs {
+		for _, s := range succsFrom(from, it.b) {
 			if !seen[s] {
 				seen[s] = true
 				stack = append(stack, item{s, 0})
@@ -584,6 +755,81 @@ func mustPass(fn *ssa.Function, from *ssa.BasicBlock, fromIdx int, hit func(ssa.
 		}
 	}
 	return true, nil
+}
+
+// succsFrom: the successors of b that a path starting in block start can take. When b ends in a test of a merged
+// value (r := phi(...) compared with nil, or a boolean phi), every path from start to b passes the merge, and every
+// way into the merge that start can reach carries a value the test decides the same way, only that way out of b is
+// possible: `r0, err := nil, &Error{}` on the refusing way and `if err != nil { return err }` after the merge is not an
+// exit of the ways that did not refuse.
+func succsFrom(start, b *ssa.BasicBlock) []*ssa.BasicBlock {
+	if len(b.Instrs) == 0 || len(b.Succs) != 2 {
+		return b.Succs
+	}
+	ifi, ok := b.Instrs[len(b.Instrs)-1].(*ssa.If)
+	if !ok {
+		return b.Succs
+	}
+	atom, pol := condAtom(ifi.Cond)
+	var phi *ssa.Phi
+	var bin *ssa.BinOp
+	switch t := atom.(type) {
+	case *ssa.Phi:
+		phi = t
+	case *ssa.BinOp:
+		if t.Op != token.EQL && t.Op != token.NEQ {
+			return b.Succs
+		}
+		if p, isPhi := t.X.(*ssa.Phi); isPhi && isNilConst(t.Y) {
+			phi, bin = p, t
+		} else if p, isPhi := t.Y.(*ssa.Phi); isPhi && isNilConst(t.X) {
+			phi, bin = p, t
+		}
+	}
+	if phi == nil {
+		return b.Succs
+	}
+	P := phi.Block()
+	if P == start || start == b || len(P.Preds) != len(phi.Edges) || !P.Dominates(b) {
+		return b.Succs
+	}
+	if reach(start, nil, map[*ssa.BasicBlock]bool{P: true})[b] {
+		return b.Succs // b can be reached from start without a new entry into the merge
+	}
+	R := reach(start, nil, nil)
+	decided, value, n := true, false, 0
+	for i, e := range phi.Edges {
+		if p := P.Preds[i]; p != start && !R[p] {
+			continue
+		}
+		var v bool
+		switch {
+		case bin != nil && isNilConst(e):
+			v = bin.Op == token.EQL
+		case bin != nil && knownNonNil(e, nil):
+			v = bin.Op == token.NEQ
+		case bin == nil:
+			cb, isC := constBool(e)
+			if !isC {
+				return b.Succs
+			}
+			v = cb
+		default:
+			return b.Succs
+		}
+		if n > 0 && v != value {
+			decided = false
+		}
+		value = v
+		n++
+	}
+	if n == 0 || !decided {
+		return b.Succs
+	}
+	if value == pol {
+		return b.Succs[:1]
+	}
+	return b.Succs[1:]
 }
 
 // instrIndex finds the position of an instruction in its block.
@@ -1154,4 +1400,10 @@ func sameExpr(a, b ssa.Value) bool {
 		return ok && x.Op == y.Op && x.Op != token.MUL && x.Op != token.ARROW && sameExpr(x.X, y.X)
 	}
 	return false
+}
+
+// valueOfInstr: the instruction as a value, nil when it has none.
+func valueOfInstr(in ssa.Instruction) ssa.Value {
+	v, _ := in.(ssa.Value)
+	return v
 }
